@@ -1,4 +1,4 @@
-//@unit name=pageralloc props=C09,C12,C11
+//@unit name=pageralloc props=C01,C08,C09,C12,C11
 //@strip-pub
 // Unit `pageralloc`: page allocation and deallocation against an abstract free list (C09: the free
 // list kept in page zero and in the freed pages survives close/reopen only if it is a well-formed
@@ -143,13 +143,12 @@ impl Pager {
             r is Ok ==> final(self).cache.has(id),
             forall|i: u64| final(self).cache.unpinned(i) == old(self).cache.unpinned(i),
     { unimplemented!() }
-    // stands for frame.with_bytes(|bytes| self.write_block(id, bytes, size)) in dealloc_page
+    // stands for frame.with_bytes(|bytes| self.write_block(id, bytes, size)): dealloc_page wrote the freed image at once until fix f7fd299;
+    // kept so that a body that writes again is still extracted (and then fails dealloc.the_data_file_is_not_written)
     #[verifier::external_body]
     pub fn write_frame_ro(&mut self, frame: &MemFrame, id: PageId, size: u32) -> (r: io::Result<()>)
         requires
-            [C09,C11:dealloc.writes_free_format_image] frame.free_fmt(),
-            [C09,C11:dealloc.writes_at_own_page_id] id == frame.id(),
-            [C09,C12,C11:dealloc.writes_whole_page] size == old(self).psize,
+            frame.free_fmt(), id == frame.id(), size == old(self).psize,
         ensures
             final(self).first == old(self).first, final(self).last == old(self).last, final(self).total == old(self).total, final(self).nextm == old(self).nextm, final(self).cache == old(self).cache, final(self).psize == old(self).psize,
             r is Ok ==> final(self).written@ == old(self).written@.insert(*frame),
@@ -164,6 +163,7 @@ impl Pager {
             r is Ok ==> final(self).cached().contains(frame),
             r matches Ok(i) ==> i == frame.id(),
             r is Ok ==> final(self).nextm@ == old(self).nextm@.insert(frame.id(), frame.next_link()),
+            final(self).written == old(self).written,      // unit pagerio: cache_frame.the_data_file_changes_only_at_a_checkpoint
     { unimplemented!() }
 
 //@fn crates/axmos-db/src/io/pager.rs | impl Pager | allocate_page
@@ -192,6 +192,7 @@ impl Pager {
 //@   [C09,C11:dealloc.page_zero_refused] id == 0 ==> r is Err,
 //@   [C09,C11:dealloc.keeps_page_count] final(self).total_pages() == old(self).total_pages(),
 //@   [C09,C12,C11:dealloc.freed_image_cached] r is Ok ==> (exists|f: MemFrame| final(self).cached().contains(f) && f.id() == id && f.free_fmt()),
+//@   [C01,C08:dealloc.the_data_file_is_not_written] final(self).written_set() == old(self).written_set(),
 //@end
 }
 
